@@ -180,7 +180,7 @@ def coverage(ctx, records, dropped):
     for cls, want in (("sys_classes", {"none", "s1", "s2", "s3", "s4", "s5"}), ("tag_classes", {"none", "g1", "g2"}),
                       ("ctype_classes", {"none", "t1", "t2"})):
         lack = want - set(cov[cls])
-        if lack:
+        if len(lack) > (1 if ctx.quick() and cls != "tag_classes" else 0):     # quick: one class may be absent
             missing.append("%s lacks %s" % (cls, sorted(lack)))
     return cov, missing
 
